@@ -7,11 +7,12 @@ Streams of C12.
       stack = comma list of the directives present in the site (any order; the real chain is
               ordered by casket): limits request_id log rewrite gzip header errors:<plain|page404|visible>
               status mime internal templates
-      path  = html | bin      ae = 1 | 0 (Accept-Encoding: gzip sent)
+      path  = html | bin | html-head | bin-head  (…-head: the request method is HEAD)
+      ae    = 1 | 0 (Accept-Encoding: gzip sent)
       inner = ret:<s>:<0|1> | write:<s|->:<hex>:<0|1>:<kind>:<cl 0|1>:<mode> | file:<kind>:<hex>
               | panic | panicafter:<s|->:<hex>
               kind = plain | tok | tparse | texec  (what text/template makes of the body)
-              mode = w | c | s | wf | fw | nw  (Write, io.Copy, io.WriteString, Write+Flush, Flush+Write, optional-interface
+              mode = w | c | s | wf | fw | nw | i<mode> (a 103 Early Hints first)  (Write, io.Copy, io.WriteString, Write+Flush, Flush+Write, optional-interface
                      assertions + CloseNotify + Push then Write: all a write for the model)
               file: the request goes to the real static file server (Content-Length, ETag …), returns (200, nil)
       out   = <commits> <status> <cl> <body> <followup>
@@ -63,11 +64,17 @@ def parseInner (s : String) : Option Inner :=
 structure Case where
   cfg : Cfg
   req : Req
-  inner : Inner
+  inner : Inner      -- what the innermost handler does for this request
 
 def parseCase : List String → Option Case
   | [st, p, ae, i] => do
-    pure { cfg := ← parseStack st, req := { html := p == "html", ae := ae == "1" }, inner := ← parseInner i }
+    let head := p.endsWith "-head"
+    let gi ← parseInner i
+    -- the static file server answers a HEAD request with the header only (http.ServeContent):
+    -- Content-Length set, nothing written
+    let mi := if head && i.startsWith "file:" then Inner.write (some 200) [] false .plain true else gi
+    pure { cfg := ← parseStack st, req := { html := p.startsWith "html", ae := ae == "1", head := head },
+           inner := mi }
   | _ => none
 
 def showChunk : Chunk → String
@@ -81,18 +88,19 @@ def showChunk : Chunk → String
 def showBody (b : List (Chunk × Bool)) : String :=
   if b.isEmpty then "-" else "+".intercalate (b.map fun x => (if x.2 then "g:" else "r:") ++ showChunk x.1)
 
-def showCL (r : Resp) : String :=
+def showCL (head : Bool) (r : Resp) : String :=
   match r.cl with
   | none => "-"
-  | some _ => if clOK r then "=" else "!"
+  | some _ => if head then "h" else if clOK r then "=" else "!"
 
-def showResp (r : Resp) : String := s!"{r.commits} {r.status} {showCL r} {showBody r.body}"
+def showResp (head : Bool) (r : Resp) : String := s!"{r.commits} {r.status} {showCL head r} {showBody r.body}"
 
 /-- an observed response: the Content-Length state is turned back into a symbolic value that is
 right (`=`) or wrong (`!`) for the observed body -/
 def mkResp (commits status : Nat) (cl : String) (body : List (Chunk × Bool)) : Option Resp :=
   let mk := fun (c : Option Chunk) => some { commits := commits, status := status, body := body, cl := c, live := c }
   if cl = "-" then mk none
+  else if cl = "h" then mk (some (.custom 1))  -- HEAD: present, describes the body a GET would get
   else if cl = "=" then
     (match body with
       | [(c, false)] => mk (some c)
@@ -120,7 +128,7 @@ def parseBody (s : String) : Option (List (Chunk × Bool)) :=
 def serveModel (f : List String) : String :=
   match parseCase f with
   | none => "bad-case"
-  | some c => showResp (serve c.cfg c.req c.inner) ++ " ok"
+  | some c => showResp c.req.head (serveWire c.cfg c.req c.inner) ++ " ok"
 
 def serveJudge (f : List String) (out : String) : String :=
   if out.startsWith "PANIC:" then "bad:not-contained:a panic escaped Server.ServeHTTP"
@@ -134,9 +142,9 @@ def serveJudge (f : List String) (out : String) : String :=
       match mkResp cm st cl body with
       | none => "bad:unparsable:" ++ out
       | some r =>
-        let v := verdict (c.cfg.templates && c.req.html) (effectiveErrors c.cfg) c.inner r
+        let v := verdict c.req.head (c.cfg.templates && c.req.html) (effectiveErrors c.cfg) c.inner r
         if v != "ok" then v
-        else if fu != "ok" then "bad:not-contained:the server did not serve the next request correctly"
+        else if fu != "ok" then "bad:not-contained:the follow-up requests were not answered as a fresh instance of the site answers them"
         else "ok"
     | _, _, _ => "bad:unparsable:" ++ out
   | _, _ => "bad:unparsable:" ++ out
@@ -147,8 +155,9 @@ def liveModel (f : List String) : String :=
   match parseCase f with
   | none => "bad-case"
   | some c =>
-    let r := serve c.cfg c.req c.inner
-    s!"{if r.status = 0 then 200 else r.status} {if clOK r then "ok" else "!"} {showBody r.body} ok ok"
+    let r := serveWire c.cfg c.req c.inner
+    let clok := clOK r || bodiless c.req.head r.status
+    s!"{if r.status = 0 then 200 else r.status} {if clok then "ok" else "!"} {showBody r.body} ok ok"
 
 def liveJudge (f : List String) (out : String) : String :=
   if (out.splitOn "ERR:").length > 1 then "bad:malformed:the client did not get a complete response (connection cut, or fewer bytes than declared)"
@@ -162,10 +171,10 @@ def liveJudge (f : List String) (out : String) : String :=
       match mkResp 1 st (if cl = "ok" then "-" else "!") body with
       | none => "bad:unparsable:" ++ out
       | some r =>
-        let v := verdict (c.cfg.templates && c.req.html) (effectiveErrors c.cfg) c.inner r
+        let v := verdict c.req.head (c.cfg.templates && c.req.html) (effectiveErrors c.cfg) c.inner r
         if v != "ok" then v
-        else if f1 != "ok" then "bad:not-contained:the connection did not serve the next request"
-        else if f2 != "ok" then "bad:not-contained:the server did not serve a new connection"
+        else if f1 != "ok" then "bad:not-contained:follow-up on the same connection not answered as on a fresh instance of the site"
+        else if f2 != "ok" then "bad:not-contained:follow-up on a new connection not answered as on a fresh instance of the site"
         else "ok"
     | _, _ => "bad:unparsable:" ++ out
   | _, _ => "bad:unparsable:" ++ out
